@@ -79,6 +79,24 @@ def run(project: Project, rep, tier: str):
                         "distance: different diagrams with the same births and the same deaths, paired differently, are "
                         "treated as equal (P=[[0,2],[1,3]], Q=[[0,3],[1,2]]: true distance 1.29)",
                         construct=f"{SW}: column-wise sort shortcut")
+    # a closeness test with numpy's default absolute tolerance on quantities that scale with the data is not scale-free: what
+    # it lets through at unit scale it swallows at scale 1e-9 (and its relative part is relative to the distance from the
+    # origin, so it is not translation-invariant either)
+    from ..core.values import generic_elem as _ge
+    for ev in I.log:
+        if ev["kind"] == "compare" and ev.get("op") == "isclose":
+            try:
+                d_ = facets.degree(_ge(ev["lhs"]), facets.DegDecl())
+            except Exception:
+                continue
+            if not facets.is_top(d_) and d_ != facets.POLY and abs(d_[0]) > 1e-9:
+                rep.refuted("SW-DEG", ev["fi"] or fi, ev["node"],
+                            "projected coordinates (which scale with the diagrams) are compared with np.isclose's absolute tolerance "
+                            "1e-8 / a tolerance relative to their distance from the origin: pairs that count at unit scale are "
+                            "dropped for tiny diagrams or far from the origin, so the value no longer scales linearly nor is "
+                            "invariant under diagonal translation",
+                            construct=f"{SW}: np.isclose on projected coordinates")
+                return
     if not isinstance(r, Sc) or unmodelled_in(r.e):
         rep.unmodelled("SW-DEG", fi, fi.node, f"result not fully modelled: {unmodelled_in(r.e) if isinstance(r, Sc) else r!r}")
         return
